@@ -55,6 +55,7 @@ ASSUMPTIONS = [
 BOUNDS = {
     "quick": {
         "layouts": "72 + 6 with one / two characters in front of the construct + 12 whose first line is a latin-1 / cp1251 / shift_jis / koi8-r coding comment with non-ASCII text (stored in that codec for the file paths) + 21 with a line-break look-alike (FF VT FS NEL LS PS lone-CR) in the preceding text",
+        "far_down_far_right": "the fault on line 99 / 100 / 1000 (98, 99, 999 text lines before it) and in column 300+ (5 layouts; thorough 40)",
         "tails": "2 (blank-region variants behind the 72 plain layouts: without tail only)",
         "paths": "4 direct + 8 nested (include / inherit / namespace file= / include inside a def from a rendering template, in memory and with module_directory) for LF column-1 plain-layout documents without tail",
         "html_error_template": "nested include route; string path, LF documents without tail; look-alike layouts without tail: string path, and file path for the LF column-1 ones; blank-region variants only there",
@@ -428,6 +429,12 @@ def layouts(tier="quick"):
             out += [(0, "\n", "special%d" % i, "col1"), (0, "\r\n", "special%d" % i, "col1"), (1, "\n", "special%d" % i, "after3")]
     else:
         out += list(itertools.product((0,), EOLS, ["special%d" % i for i in range(len(SPECIALS))], PLACE))
+    # the fault far down (its line number has 3 / 4 digits, one digit more than the line before) or far to the right
+    if tier == "quick":
+        out += [(0, "\n", "long98", "col1"), (0, "\r\n", "long99", "after3"), (0, "\n", "long999", "col1"), (0, "\n", "none", "after300"), (1, "\r\n", "one", "after300")]
+    else:
+        out += list(itertools.product((0,), EOLS, ("long8", "long9", "long98", "long99", "long100", "long998", "long999", "long1000"), ("col1", "after3")))
+        out += list(itertools.product((0, 1), EOLS, ("none", "one"), ("after300",)))
     return out
 
 
@@ -470,6 +477,8 @@ def layout_prefix(layout, seed):
     elif pre.startswith("special"):
         x = SPECIALS[int(pre[7:])]
         s += t1 + x + t3 + "\n" + x + "l2" + x + "z\n"
+    elif pre.startswith("long"):
+        s += (t1 + "\n") * int(pre[4:])
     elif pre.startswith("coding"):
         codec = CODINGS[int(pre[6:])][0]
         s += "## " + t1 + " -*- coding: " + codec + " -*- written by " + t1 + "\n" + t3 + "\n"
@@ -477,6 +486,8 @@ def layout_prefix(layout, seed):
         s += "    "
     elif place == "after3":
         s += t2 + " "
+    elif place == "after300":
+        s += (t2 + " ") * 100
     elif place == "after2":
         s += t2
     elif place == "after1":
